@@ -8,6 +8,8 @@
    The output values are the executable specifications of Model/ (hash functions, curve
    arithmetic, modexp), there is no second formalisation to compare them with. *)
 From RevmV Require Export Base.PBytes.
+(* only the executable G2 predicate of BN254 (twist membership and order-n subgroup) is shared with the model *)
+From RevmV Require Model.Precompile.
 Local Open Scope Z_scope.
 
 Definition ceil_div (a b : Z) : Z := a / b + (if a mod b =? 0 then 0 else 1).
@@ -147,6 +149,11 @@ Definition s_must_fail (spec addr : Z) (input : bytes) : option bool :=
     else if negb (forallb (fun i => word_at input i <? spec_bn_p) (seq 0 (Z.to_nat (len / 32)))) then Some true
     else if negb (forallb (fun k => bn_on_curve (word_at input (6 * k)) (word_at input (6 * k + 1))) (seq 0 (Z.to_nat (len / 192)))) then Some true
     else if forallb (fun k => forallb (fun j => word_at input (6 * k + j) =? 0) (seq 2 4)) (seq 0 (Z.to_nat (len / 192))) then Some false
+    (* EIP-197: every G2 element must be a point of the order-n subgroup of the twist, whatever it is paired with *)
+    else if negb (forallb (fun k => forallb (fun j => word_at input (6 * k + j) =? 0) (seq 2 4)
+                                    || Precompile.bn_g2_valid_memo (word_at input (6 * k + 2)) (word_at input (6 * k + 3))
+                                                                   (word_at input (6 * k + 4)) (word_at input (6 * k + 5)))
+                          (seq 0 (Z.to_nat (len / 192)))) then Some true
     else None
   else if addr =? 9 then
     Some (negb (len =? 213) || negb ((nth 212 input 0 =? 0) || (nth 212 input 0 =? 1)))
